@@ -355,3 +355,13 @@ def _m_pernode_delay(job, rec, k):
 def _m_heun_ring(job, rec, k):
     """run-level obligation of C09: only the Heun kernel, only the buffer-advance obligation"""
     return rec.get('kind') == 'ring-buffer-run' and job.get('solver') == 'heun' and rec.get('solver') == 'heun'
+
+
+@matcher('yaml-same-name-operator-templates')
+def _m_yaml_same_name(job, rec, k):
+    """only the C15 programs that build one OperatorTemplate object per node under one name, only the round trip, and only
+    the symptoms of the renamed operator (KeyError on a declared path / a state-map entry <op>_num<k>)"""
+    if job.get('same_name') != 'roundtrip':
+        return False
+    what = str(rec.get('what', ''))
+    return ('KeyError' in what and rec.get('kind') == 'compile-raises') or bool(re.search(r"_num\d+/", what))
